@@ -10,12 +10,12 @@ class SpecC08(e3_driver.Spec):
     classes = ['Union', 'Union', 'NautilusBound', 'NautilusBound',
                'Ellipsoid', 'Mixture']
     profile = dict(max_len=5, w_split=4, w_trim=1, w_sample=3, w_restart=1,
-                   w_update=0, w_pool=3)
+                   w_update=0, w_pool=3, w_split_many=2)
     chunk = 4
     d_max = 4
     runs = dict(quick=480, thorough=8000)
     clouds = ['blob', 'two', 'three', 'elongated', 'curved', 'face', 'corner',
-              'wrapped']
+              'wrapped', 'many']
     rule = ('one case = a Union or NautilusBound (also Ellipsoid/mixture for '
             'the closed-form volume) from a seeded point cloud (d 2-4, so '
             'that a uniform reference sample is affordable) and a history '
